@@ -772,6 +772,8 @@ def run(prog, rep):
 RENAME_LOCALS = ['src/psocket.c']
 
 SELFTEST = [
+    dict(id="socket-created-without-cloexec-flag", file="src/psocket.c", expect="C10.6",
+         old="#ifdef SOCK_CLOEXEC\n\tnative_type |= SOCK_CLOEXEC;\n#endif\n", new=""),
     dict(id="check-connect-result-through-helper-neutral", expect=None, edits=[
         dict(file="src/psocket.c", old="\tsocket->connected = (val == 0);\n\n\treturn (val == 0);", new="\treturn pp_socket_mark_connected (socket, val == 0);"),
         dict(file="src/psocket.c", old="P_LIB_API pboolean\np_socket_check_connect_result",
